@@ -607,6 +607,12 @@ impl World {
     pub fn height(&self) -> u64 {
         self.app.block_info().height
     }
+    pub fn advance_ms(&mut self, blocks: u64, secs: u64, ms: u64) {
+        self.app.update_block(|b| {
+            b.height += blocks;
+            b.time = b.time.plus_seconds(secs).plus_nanos(ms * 1_000_000);
+        });
+    }
     pub fn advance(&mut self, blocks: u64, secs: u64) {
         self.app.update_block(|b| {
             b.height += blocks;
